@@ -8,7 +8,7 @@ A = 'pydoctor/astbuilder.py'
 M = 'pydoctor/model.py'
 
 
-def _project(style, renamed, consumer_first, origin_all, where='package', scope='module'):
+def _project(style, renamed, consumer_first, origin_all, where='package', scope='module', rebinds=False):
     """style: 'plain' | 'star'; renamed: export under another name; origin_all: the defining module lists the name itself;
     where: the re-exporter is the package or a sibling module; scope: the import statement sits at module level or in a class body"""
     exp = 'Pub' if renamed else 'X'
@@ -20,6 +20,9 @@ def _project(style, renamed, consumer_first, origin_all, where='package', scope=
     else:
         imp = 'from ._impl import X'
     impl = 'class X:\n    """doc of X"""\n    def m(self):\n        """doc m"""\n    class In:\n        v = 1\ndef other(): pass\n'
+    if rebinds:
+        # the defining module binds the name twice: an import of a same-named base first, then the class itself
+        impl = 'from pk._base import X\n' + impl.replace('class X:', 'class X(X):')
     if origin_all:
         impl += '__all__ = ["X"]\n'
     elif style == 'star':
@@ -32,12 +35,17 @@ def _project(style, renamed, consumer_first, origin_all, where='package', scope=
             'class U1(FromPkg):\n    """see L{pk._impl.X}, L{%s.%s} and L{pk._impl.X.m}"""\n'
             'class U2(FromImpl):\n    """see L{FromImpl.In}"""\n'
             'def f(a: FromImpl, b: "FromPkg") -> None:\n    pass\n') % (pub, exp, pub, exp)
+    star_user = 'from pk._impl import *\nclass S1(X):\n    """see L{X.m}"""\n'
     if scope == 'class':
         user = user.replace(f'from {pub} import {exp} as FromPkg', 'from pk._impl import X as FromPkg')
     if where == 'package':
         mods = [('pk', f'{imp}\n__all__ = ["{exp}"]\n', True), ('pk._impl', impl, False), ('pk.user', user, False)]
     else:
         mods = [('pk', '', True), ('pk.api', f'{imp}\n__all__ = ["{exp}"]\n', False), ('pk._impl', impl, False), ('pk.user', user, False)]
+    if not origin_all:
+        mods.append(('pk.zstar', star_user, False))
+    if rebinds:
+        mods.insert(1, ('pk._base', 'class X:\n    """the base of the same name"""\n    def bm(self): pass\n', False))
     if consumer_first:
         mods = [mods[0], ('pk.auser', user.replace('U1', 'V1').replace('U2', 'V2'), False)] + mods[1:]
     return mods, exp, pub
@@ -50,13 +58,15 @@ def _cases(tier, seed):
         yield {'style': style, 'renamed': renamed, 'consumer_first': first, 'origin_all': oall}
         yield {'style': style, 'renamed': renamed, 'consumer_first': first, 'origin_all': oall, 'where': 'sibling'}
         if style == 'plain' and not oall:
+            yield {'style': style, 'renamed': renamed, 'consumer_first': first, 'origin_all': oall, 'rebinds': True}
+        if style == 'plain' and not oall:
             # an import statement in a class body binds the name in the class, not in the module: nothing is re-exported
             yield {'style': style, 'renamed': renamed, 'consumer_first': first, 'origin_all': oall, 'scope': 'class'}
 
 
 def _check(case):
     mods, exp, pub = _project(case['style'], case['renamed'], case['consumer_first'], case['origin_all'],
-                              case.get('where', 'package'), case.get('scope', 'module'))
+                              case.get('where', 'package'), case.get('scope', 'module'), case.get('rebinds', False))
     try:
         system = fixtures.build_system(mods)
     except BaseException as ex:   # noqa
@@ -87,6 +97,11 @@ def _check(case):
             got = 'LookupError'
         if got is not ob and (moved or name == old):
             fails.append({'observed': f'find_object({name!r}) -> {got}', 'required': f'{ob}', 'class': 'find_object'})
+    s1 = system.allobjects.get('pk.zstar.S1')
+    if moved and s1 is not None and case['style'] != 'star':
+        # a consumer doing `from <defining module> import *` after the move still gets the re-exported name
+        if s1.baseobjects != [ob]:
+            fails.append({'observed': f'pk.zstar.S1 (from pk._impl import *): baseobjects = {s1.baseobjects}', 'required': f'[{ob}]', 'class': 'star-consumer'})
     for key, o in system.allobjects.items():
         from pydoctor import model
         if isinstance(o, model.Module) and o.name in ('user', 'auser'):
